@@ -894,6 +894,14 @@ def c09(ctx):
     bcases = [{"id": i + 1, "cmds": p, "texts": [big(n) for n in sizes]} for i, p in enumerate(progs)]
     bexps = [{"id": c["id"], "r": [{"t": t, "ms": [], "firm": False, "undef": False, "noret": False} for t in c["texts"]]} for c in bcases]
     ctx.replay("C09-big-inputs", bcases, FIELDS["C09"], mode="both", exps=bexps, want_ast=False)
+    # accepted programs outside the modelled subsets (regex \\w \\W \\b, classes with a trailing dash, odd counts): run, no oracle
+    extras = ["find all @/\\w+\\b/", "find all @/\\W/", "find all @/a\\b/", "find all @/[a-]+/", "find all @/[]-a]/", "find all @/a{2,1}/",
+              "find all between 2 and 1 'a'", "find all at most 0 'a'", "find all exactly 0 'a' 'b'", "find all @/(a|)+b/", "find all @/\\bab\\b/",
+              "find all caseless @/ab/", "find all not @/a/", "find all @/a/ = x x", "find all maybe @/(a)/ _1"]
+    etexts = [[], [97], [97, 98], [98, 97, 32, 97, 98], [97, 45, 93, 97], [32, 97, 97, 98, 10, 97], [95, 49, 97, 32]]
+    ecases = [{"id": i + 1, "src": sct, "texts": etexts} for i, sct in enumerate(extras)]
+    eexps = [{"id": c["id"], "r": [{"t": t, "ms": [], "firm": False, "undef": False, "noret": False} for t in c["texts"]]} for c in ecases]
+    ctx.replay("C09-unmodelled-accepted", ecases, FIELDS["C09"], mode="both", exps=eexps, want_ast=False)
     # RunFiles on file NAMES (renames between commands): returns normally
     names_machine(ctx, "C09")
 
@@ -1221,6 +1229,20 @@ def c08(ctx):
     for _ in range(500 if quick else 5000):
         soups.append({"src": [rnd.randint(0, 255) for _ in range(rnd.randint(1, 16))]})
     compile_check(ctx, "C08-seeded-soups", soups, "bare,findall")
+    # numbers that do not fit an int in every numeric position, comment and string edges at the end of the source
+    big = "99999999999999999999"
+    edge = ["find skip %s 'a'", "find skip 1 take %s 'a'", "find take %s 'a'", "find top %s 'a'", "find last %s 'a'", "find all exactly %s 'a'",
+            "find all at least %s 'a'", "find all at most %s 'a'", "find all between %s and 2 'a'", "find all between 1 and %s 'a'",
+            "set t to transform return %s end replace all 'a' with t", "set p to pattern 'a' begin return matchLength < %s end find all p",
+            "find all @/a{%s}/", "find all @/a{1,%s}/", "find all @/a{%s,}/"]
+    lines = [{"text": e % big} for e in edge] + [{"text": e % "0"} for e in edge] + [{"text": e % "007"} for e in edge]
+    lines += [{"text": t} for t in ["find all @/(?=a)b/", "find all @/a(?!b)/", "find all @/(?<=a)b/", "find all @/(?<!a)b/", "find all @/(?<n/", "find all @/(?<n>a/",
+                                    "find all @/\\w+\\b/", "find all @/\\W\\B/", "find all @/[a-/", "find all @/[a-]/", "find all @/[]-a]/", "find all @/a{2,1}/",
+                                    "find all @/(?/", "find all @/(?</", "find all @/\\k<n>/", "find all @/\\k<n/", "find all @/\\9/"]]
+    lines += [{"text": t} for t in ["find all 'a' --", "find all 'a' --(", "find all 'a' --()", "find all 'a' --()-", "find all 'a' --())", "find all 'a' --()-)",
+                                    "find all 'a' ---", "--\nfind all 'a'", "--()-)--find all 'a'", "find all 'a' -", "find all '\\", "find all \"\\",
+                                    "find all 'a' = ", "find all 'a' = x =", "find all between 2 and 1 'a'", "find all at most 0 'a'", "find all exactly 0 'a' 'b'"]]
+    compile_check(ctx, "C08-edge-sources", lines, "bare")
     ctx.exhaustive = False
     # sensitivity of the lexer model
     run_lex_mc(ctx, "sens-final", "lex", 2, "", dev=["AsIsFinalSwitch"], expect="LexTotal")
